@@ -24,8 +24,11 @@ META = {
     "explanation": ("EXACT obligations (constraint as written => compiled feasible through a ghost witness) for every "
                     "LP/SOC/exp-cone atom and the objective epigraph; alignment of the integrality vector with the "
                     "columns (also after re-formulation); power-cone towers verified in the log domain for every "
-                    "weight list up to the stated bound.  Complete over values; shapes and weight lists bounded."),
-    "bounds": "atoms: argument length 2; towers: all weight lists of length <= 3 with entries <= 4 (quick), length <= 4 entries <= 6 (thorough)",
+                    "weight list up to the stated bound; ONE STEP of IPCone.split under a modular contract (recursive calls cut at the "
+                    "callee's contract) for ALL positive integer weights at list lengths 2-4 (2-6 thorough), with the Lean lemmas "
+                    "tower_step_* / pow_two_even carrying the step to the tower by induction over the degree 2^k (the induction "
+                    "over the tree of rotated cones is Lean's tower_sound / tower_exact).  Complete over values; shapes and weight-list lengths bounded."),
+    "bounds": "atoms: argument length 2; split step: list length <= 4 (quick) / 6 (thorough), weights unbounded; whole towers (to_pot + split, end to end): all weight lists of length <= 3 with entries <= 4 (quick), length <= 4 entries <= 6 (thorough)",
     "trusted_base": ["z3/cvc5", "log-domain reading of rotated cones on the positive orthant: Lean-checked (lean/Lemmas.lean rotated_cone_log, job lemmas-lean)", "ShimCSR"],
     "assumptions": ["the external solver finds the optimum of the compiled program (not decided here)",
                     "A-LOG: tower variables are positive (the closure at 0 is not examined)"],
@@ -33,7 +36,7 @@ META = {
 
 
 # lemmas over the contracts, checked by Lean 4 + Mathlib on every run (lean/Lemmas.lean, rverif/lemmas.py)
-LEMMAS = ["rotated_cone_log"]
+LEMMAS = ["rotated_cone_log", "tower_step_sound", "tower_step_exact", "tower_step_exact_direct", "pow_two_even", "tower_sound", "tower_exact"]
 
 
 def SOURCES():
@@ -54,6 +57,8 @@ def jobs(tier):
     chunk = max(1, len(betas) // 12)
     for i in range(0, len(betas), chunk):
         js.append({"name": f"towers-{i // chunk}", "kind": "towers", "betas": betas[i:i + chunk]})
+    for n in range(2, (5 if tier == "quick" else 7)):
+        js.append({"name": f"split-step-{n}", "kind": "split_step", "n": n})
     js.append({"name": "atoms-through-towers", "kind": "tower_atoms"})
     js.append({"name": "tower-callsites", "kind": "tower_callsites"})
     js.append({"name": "pnorm-exp-cone-sampled", "kind": "pnorm_sampled"})     # exactness of the 'N' branch: numerical stand-in
@@ -276,6 +281,97 @@ def tower(beta):
     return obs
 
 
+def split_step(n):
+    """ONE step of IPCone.split for ALL positive integer weights (list length n concrete, weights symbolic integers): the recursive
+    calls `b.split()` are cut at the callee's contract (the class attribute is replaced by a recorder while the REAL function object
+    runs), so the obligations are those of a modular proof:
+      requires  len(beta) >= 2, every weight >= 1, sum(beta) = 2 * half for an integer half >= 1
+      ensures   exactly one rotated cone, headed by the cone's own left variable; each of its two operands is either the head of
+                exactly one child (a fresh column) or one of the cone's own right-hand variables;
+                every child satisfies the precondition at degree `half` (>= 2 weights, each >= 1, summing to half) over distinct
+                right-hand variables of the parent;
+                for every right-hand variable j: half * [j is a direct operand] + sum of the children's weights on j = beta_j.
+    Lean lemmas tower_step_sound / tower_step_exact / tower_step_exact_direct turn 'weights add up' into the log-domain statement
+    of one step, pow_two_even closes the induction over the degree 2^k."""
+    def setup(c):
+        m = ro.Model()
+        model = m.rc_model
+        left = m.dvar()
+        right = m.dvar(n)
+        beta = [c.fresh_int(f"beta{j}_") for j in range(n)]
+        for b in beta:
+            c.assume(b >= 1)
+        half = c.fresh_int("half_")
+        c.assume(half >= 1)
+        c.assume(sum(beta[1:], beta[0]) == 2 * half)
+        cone = lp.IPCone(left, right.to_affine(), list(beta))
+        return {"m": m, "model": model, "cone": cone, "left": left, "right": right, "beta": list(beta), "half": half,
+                "n0": model.last}
+
+    def call(ns):
+        real = lp.IPCone.split
+        kids = []
+
+        def recorder(self):
+            kids.append(self)
+            return []
+        lp.IPCone.split = recorder
+        try:
+            constrs = real(ns["cone"])
+        finally:
+            lp.IPCone.split = real
+        recs = [(_single_col(k.left, "child.left"),
+                 [_single_col(k.right[i], "child.right") for i in range(k.right.size)], list(k.beta)) for k in kids]
+        return _log_system(constrs), recs
+
+    def _cols(ns):
+        return ns["left"].first, [ns["right"].first + j for j in range(n)]
+
+    def structure(ns, res):
+        sys_, kids = res
+        lcol, rcols = _cols(ns)
+        n0 = ns["n0"]
+        if len(sys_) != 1 or sys_[0][0] != "rot" or sys_[0][1] != lcol:
+            return False
+        ops = [sys_[0][2], sys_[0][3]]
+        heads = [k[0] for k in kids]
+        if len(set(heads)) != len(heads) or any(h < n0 for h in heads):
+            return False
+        if sorted(o for o in ops if o >= n0) != sorted(heads) or any(o < n0 and o not in rcols for o in ops):
+            return False
+        return all(len(rc) == len(bl) and len(bl) >= 2 and len(set(rc)) == len(rc) and all(r in rcols for r in rc)
+                   for _, rc, bl in kids)
+
+    def kids_pre(ns, res):
+        _, kids = res
+        t = [p_eq(sum(bl[1:], bl[0]), ns["half"]) for _, _, bl in kids if bl]
+        t += [p_le(1, b) for _, _, bl in kids for b in bl]
+        return p_and(*t) if t else True
+
+    def weights(ns, res):
+        sys_, kids = res
+        if len(sys_) != 1 or sys_[0][0] != "rot":
+            return False
+        _, rcols = _cols(ns)
+        ops = [sys_[0][2], sys_[0][3]]
+        t = []
+        for j, rc in enumerate(rcols):
+            tot = ns["half"] * sum(1 for o in ops if o == rc)
+            for _, krc, kbl in kids:
+                for r, w in zip(krc, kbl):
+                    if r == rc:
+                        tot = tot + w
+            t.append(p_eq(tot, ns["beta"][j]))
+        return p_and(*t)
+
+    obs, _ = check_function("rsome.lp:IPCone.split", setup, call,
+                            [post("STEP: one rotated cone on the cone's head; operands are child heads (fresh, each once) or own variables", structure),
+                             post("STEP: every child meets the precondition at half the degree", kids_pre),
+                             post("STEP: direct operands and children's weights add up to the parent's weights", weights)],
+                            mode="D", label=f"split-step,len={n},weights symbolic", bounded=False, max_paths=20000)
+    return obs
+
+
 def ctx_fresh(name):
     from ..sym import ctx
     return ctx().fresh_real(name)
@@ -480,6 +576,8 @@ def run_job(job):
         for b in job["betas"]:
             out += tower(b)
         return out
+    if k == "split_step":
+        return split_step(job["n"])
     if k == "tower_atoms":
         return tower_atoms()
     if k == "tower_callsites":
